@@ -674,6 +674,26 @@ func (e *Exec) evalGhostBuiltin(st *State, call *ast.CallExpr, name string) Term
 		if c, ok := x.(*ast.CallExpr); ok {
 			if id, ok := c.Fun.(*ast.Ident); ok && (id.Name == "__arg") && e.sendValue != nil {
 				x = e.sendValue
+			} else if ok && id.Name == "__arg" && len(c.Args) == 1 && e.callArgExprs != nil {
+				// __owned(__arg(i)) at a call: the i-th argument expression
+				if tv, ok := e.tvOf(c.Args[0]); ok && tv.Value != nil {
+					i := 0
+					fmt.Sscanf(tv.Value.ExactString(), "%d", &i)
+					if i < len(e.callArgExprs) {
+						x = e.callArgExprs[i]
+					}
+				}
+			}
+		}
+		// &v of a local that is itself not borrowed: a fresh object; &x.f: part of a pre-existing object
+		if u, ok := x.(*ast.UnaryExpr); ok && u.Op == token.AND {
+			switch ux := u.X.(type) {
+			case *ast.Ident:
+				x = ux
+			case *ast.CompositeLit:
+				return True
+			default:
+				return False
 			}
 		}
 		id := rootIdent(x)
